@@ -32,6 +32,8 @@ def cells(tier):
     out = make_cells(PID, 'exc', tier)
     for pat in ([0], [1], [0, 2], [0, 1, 2]):
         out += make_cells(PID, 'exc', tier, thin=plain, extra={'untimed': pat}, suffix='untimed-' + ''.join(map(str, pat)))
+    # roStorySend with an empty storyBody (a missing one is not schema-shaped: storyBody is a required element)
+    out += make_cells(PID, 'exc', tier, N=3, ops=['roStorySend'], extra={'empty_body': True}, suffix='empty-storyBody')
     # stories that carry only some of the timing tags (TextTime alone, MediaTime alone, an empty payload)
     for pat in (['TT', 'SD', 'MT'], ['MT', 'TT+MT', 'none'], ['empty', 'TT', 'SD']):
         out += make_cells(PID, 'exc', tier, thin=plain, extra={'timing_pat': pat}, suffix='timing-' + ','.join(pat))
